@@ -182,6 +182,29 @@ func c10FaultW(q mq.Packet, t byte, k int, desc string, ek env.ErrKind, recoverW
 	if int(n) != k {
 		return mk("count", fmt.Sprintf("WriteTo returned n=%d, the writer accepted %d", n, k))
 	}
+	if recoverW {
+		// the caller tries again on the same writer, which now accepts: this
+		// call too hands over the whole frame in one Write and reports its
+		// length (a WriteTo that remembers how far the last one got, and goes
+		// on from there, puts half a frame on the wire)
+		var n2 int64
+		var err2 error
+		res = guarded(0, func() { n2, err2 = q.WriteTo(dst) })
+		if res.Panic != "" {
+			return mk("retry-panic", res.Panic)
+		}
+		ref, _, rerr, rres := writePacket(q, 0)
+		if rres.Panic != "" || rerr != nil {
+			return mk("retry-reference", fmt.Sprintf("WriteTo to a fresh buffer after the retry: err=%v %s", rerr, rres.Panic))
+		}
+		if len(w.Calls) != 2 || err2 != nil || int(n2) != len(ref) || !bytes.Equal(w.Chunks[1], ref) {
+			got := []byte(nil)
+			if len(w.Chunks) > 1 {
+				got = w.Chunks[1]
+			}
+			return mk("retry", fmt.Sprintf("second WriteTo to the same writer (which accepts everything now): n=%d err=%v, %d Write calls in all, handed over %s; the packet's frame is %d bytes: %s", n2, err2, len(w.Calls), abbrevHex(got), len(ref), abbrevHex(ref)))
+		}
+	}
 	return nil
 }
 
